@@ -483,3 +483,10 @@ def main(chk: Check) -> None:
     for c in _REGRESSIONS:
         chk.case("e2e", c, run_case)
     chk.explore("e2e", e2e_cases, run_case, quick=5000, thorough=40000)
+    # coverage-guided stage (thorough, shard 0 only): libFuzzer mutates the header / URL text, same oracle
+    found: list = []
+    if chk.replay is None and not chk.quick and not chk.violations and chk.shard_index == 0:
+        from lib import atheris_stage
+
+        found = atheris_stage.run_stage(chk, "lib.c19_fuzz", runs=40000, max_len=96)
+    chk.enumerate("atheris", found * chk.shard_count, run_case)
